@@ -314,12 +314,22 @@ def leaf_cell(w, name):
     return c
 
 
-def encode(w, tname, targs=(), own=None, prof=0, rot=0, cell_factory=None):
+def encode(w, tname, targs=(), own=None, prof=0, rot=0, cell_factory=None, prefix=''):
     pol = T.Policy(own=own or {}, prof=prof, rot=rot)
     if cell_factory is None:
-        cell_factory = lambda path: leaf_cell(w, 'c:' + path)
-    cur, v, g = T.generate(w, tname, targs, pol, cell_factory=cell_factory)
+        cell_factory = lambda path: leaf_cell(w, prefix + 'c:' + path)
+    cur, v, g = T.generate(w, tname, targs, pol, cell_factory=cell_factory, prefix=prefix)
     return cur, v
+
+
+def decoy_parse(w, fn, tname, targs, own, prof, rot, extra_args=()):
+    """history independence: an EARLIER call of the parser on an independent value of the same shape (all its fields are separate
+    symbols, so the solver may make any subset of them equal to the real value's - e.g. the part a cache would be keyed on) must not
+    influence the call under contract; its result is ignored"""
+    cur, v = encode(w, tname, targs, own, prof, rot, prefix='decoy.')
+    node = Node(cur.bits, list(cur.refs))
+    node.type_ = getattr(cur, 'type_', -1)
+    call(fn, build(w, node).begin_parse(), *extra_args)
 
 
 def parse_and_compare(w, fn, cur, v, extra_args=(), rest_bits=9, label=''):
